@@ -91,13 +91,27 @@ class FakeDongle:
             ev["fault"] = "timeout"
             w.emit(ev)
             raise CommException("Timeout")
-        try:
-            sw, data = w.device.handle(apdu)
-        except DeviceDropsLink as d:
-            ev["fault"] = "drop"
-            ev["drop"] = d.kind
-            w.emit(ev)
-            self._raise_link(d.kind)
+        rejected = False
+        if fault is not None and fault[0] == "sw":
+            nsw = fault[1]
+            passes = nsw == 0x9000 or (w.flavour == "hid" and (nsw & 0xFF00) in (0x6100, 0x6C00)) \
+                or (w.flavour == "tcp" and (nsw & 0xFF00) == 0x6100)
+            rejected = not passes    # an error status: the device refused the command, nothing happened
+        if rejected:
+            sw, data = fault[1], (fault[2] if len(fault) > 2 else b"")
+            fault = None
+        else:
+            try:
+                sw, data = w.device.handle(apdu)
+            except DeviceDropsLink as d:
+                if fault is not None and fault[0] == "timeout":
+                    ev["fault"] = "timeout"
+                    w.emit(ev)
+                    raise CommException("Timeout")
+                ev["fault"] = "drop"
+                ev["drop"] = d.kind
+                w.emit(ev)
+                self._raise_link(d.kind)
         if fault is not None:
             kind = fault[0]
             if kind == "read":
@@ -109,7 +123,16 @@ class FakeDongle:
                 w.emit(ev)
                 raise CommException("Timeout")
             if kind == "sw":
-                sw, data = fault[1], (fault[2] if len(fault) > 2 else b"")
+                # a status word the transport treats as success carries the device's ordinary answer;
+                # an error status carries no data
+                nsw = fault[1]
+                passes = nsw == 0x9000 or (w.flavour == "hid" and (nsw & 0xFF00) in (0x6100, 0x6C00)) \
+                    or (w.flavour == "tcp" and (nsw & 0xFF00) == 0x6100)
+                if len(fault) > 2:
+                    data = fault[2]
+                elif not (passes and sw == 0x9000):
+                    data = b""
+                sw = nsw
             elif kind == "op":       # replace the OP byte of a successful answer
                 data = bytes(data[:2]) + bytes([fault[1]]) + bytes(data[3:]) if len(data) >= 3 \
                     else bytes([apdu[0], apdu[1], fault[1]])
